@@ -29,6 +29,12 @@ extern "C" int __wrap_epoll_wait(int epfd, struct epoll_event *events, int maxev
     return __real_epoll_wait(epfd, events, maxevents, timeout);
 }
 
+// compiled regular expressions held by the library (libc allocations that bypass the memhook): every successful regcomp issued by library
+// code must be matched by a regfree by the time everything is torn down (-Wl,--wrap=regcomp,--wrap=regfree)
+long g_lib_regex_live = 0;
+extern "C" int __wrap_regcomp(regex_t *r, const char *p, int f) { int rc = __real_regcomp(r, p, f); if (rc == 0) g_lib_regex_live++; return rc; }
+extern "C" void __wrap_regfree(regex_t *r) { g_lib_regex_live--; __real_regfree(r); }
+
 #include "exec_model.inc"
 #include "exec_cb.inc"
 #include "exec_ops.inc"
@@ -600,6 +606,7 @@ void Exec::epilogue() {
         o << ")";
         fail("C04.4", o.str()); return;
     }
+    if (g_lib_regex_live != 0) { fail("C04.4", std::to_string(g_lib_regex_live) + " regular expressions compiled by the library were never released (regcomp without regfree) although the context and all references are gone"); return; }
     // 6. descriptors (C20.3)
     live_teardown();
     close_harness_fds();
